@@ -402,8 +402,22 @@ def main(argv):
         for s in range(shards):
             jobs.append((run, seed + 1000003 * s, str(s), None))
     maxw = int(os.environ.get("VERIF_JOBS") or 8)
+    def safe_pair(run, sd, shard, rp):
+        # an internal error of the machinery must not look like a verdict: retry once (after rebuilding the
+        # harness, e.g. if its binary vanished), then report it as a harness error
+        for attempt in (1, 2):
+            try:
+                return run_pair(pid, run, tier, sd, shard, rp)
+            except Exception as e:  # noqa
+                err = f"{type(e).__name__}: {e}"
+                log(f"[{pid}] run {run.get('name', run['harness'])}[{shard}] internal error (attempt {attempt}): {err}")
+                if attempt == 1:
+                    build_harness(run["harness"], run.get("go_flags", []))
+        return {"run": run.get("name", run["harness"]), "shard": shard, "seed": sd, "ops": "", "cases": 0, "ok": 0,
+                "propfail": [], "known": [], "diverge": [], "badop": [], "stats": {}, "samples": [],
+                "harness_error": "internal error: " + err, "wall_s": 0}
     with cf.ThreadPoolExecutor(max_workers=maxw) as pool:
-        futs = [pool.submit(run_pair, pid, run, tier, sd, shard, rp) for run, sd, shard, rp in jobs]
+        futs = [pool.submit(safe_pair, run, sd, shard, rp) for run, sd, shard, rp in jobs]
         for f in futs:
             results.append(f.result())
 
